@@ -34,6 +34,14 @@ replace_programs ()
     {
       program_t *old_prog;
 
+      r_next = r_ob->next;
+      /* function pointers made after replace_program() was called hold indices into
+       * the current program: the request is dropped, as f_replace_program() would have */
+      if (r_ob->ob->prog->func_ref)
+	{
+	  FREE ((char *) r_ob);
+	  continue;
+	}
       num_fewer =
 	r_ob->ob->prog->num_variables_total -
 	r_ob->new_prog->num_variables_total;
